@@ -111,6 +111,9 @@ static void run_b(int nthreads, int bound, int real_exec)
   int used = S->used[K_SCHED];
   vk_hit(used == 0 ? CL_PREEMPT0 : used == 1 ? CL_PREEMPT1 : CL_PREEMPT2);
   vk_obs("threads done: %d %d %d", t[0].ok, t[1].ok, t[2].ok);
+  if (vk_double_closes || vk_foreign_closes)
+    vk_violation("C20", "cross-talk-close", key, "with %d threads the library closed %d descriptor(s) twice and %d that were not its own (a number freed too early can be another thread's new descriptor)",
+                 nthreads, vk_double_closes, vk_foreign_closes);
   if (vk_fd_ledger_open_count() || vk_heap_live_count())
     vk_violation("C05", "ledgers-after-threads", key, "%d descriptor(s), %d block(s) left", vk_fd_ledger_open_count(), vk_heap_live_count());
 }
